@@ -14,9 +14,11 @@ import (
 	"net"
 	"os"
 	"path/filepath"
+	"runtime"
 	"sort"
 	"strings"
 	"sync"
+	"sync/atomic"
 	"syscall"
 	"testing"
 	"time"
@@ -214,6 +216,8 @@ type veDbusReq struct {
 	IntArg   *int   `json:"intarg"`
 	Count    int    `json:"count"`
 	Parallel int    `json:"parallel"`
+	Bg       bool   `json:"bg"`     // keep running across the end of this connection (covers the reconnect window)
+	GapUs    int    `json:"gap_us"` // pause between two calls of one goroutine
 }
 type veConn struct {
 	Header    map[string]interface{} `json:"header"`
@@ -223,6 +227,8 @@ type veConn struct {
 	PauseMs   int                    `json:"pause_ms"`   // pause after each write
 	PaceBytes int                    `json:"pace_bytes"` // after every pace_bytes payload bytes sleep pace_ms
 	PaceAt    []int                  `json:"pace_at"`    // payload offsets at which an item (frame / marker) ends
+	PaceVals  []int                  `json:"pace_vals"`  // value carried by the frame ending at pace_at[i] (0: not a frame)
+	Procs     int                    `json:"gomaxprocs"`
 	PaceMs    int                    `json:"pace_ms"`
 	Dbus      []veDbusReq            `json:"dbus"`
 	SettleMs  int                    `json:"settle_ms"`
@@ -372,7 +378,15 @@ func TestVerifE2E(t *testing.T) {
 		return nil, err
 	}
 	var replyMu sync.Mutex
+	var doneVal int64 // value of the latest frame that has certainly been processed on the current connection
+	var bgWg sync.WaitGroup
+	defer bgWg.Wait()
 	for ci, cn := range sc.Conns {
+		ci, cn := ci, cn
+		atomic.StoreInt64(&doneVal, 0)
+		if cn.Procs > 0 {
+			runtime.GOMAXPROCS(cn.Procs)
+		}
 		conn, err := dial()
 		if err != nil {
 			enc.Encode(map[string]interface{}{"ev": "e2e-error", "err": err.Error(), "log": lb.String()})
@@ -394,7 +408,9 @@ func TestVerifE2E(t *testing.T) {
 			hdr, _ = yamlv1.Marshal(cn.Header) // the encoder leptond uses
 			hdr = append(hdr, '\n')
 		}
+		replyMu.Lock()
 		enc.Encode(map[string]interface{}{"ev": "e2e-header", "conn": ci, "text": string(hdr)})
+		replyMu.Unlock()
 		if cn.HeaderCut > 0 {
 			if cn.HeaderCut < len(hdr) {
 				hdr = hdr[:cn.HeaderCut]
@@ -419,18 +435,35 @@ func TestVerifE2E(t *testing.T) {
 				par = 1
 			}
 			for p := 0; p < par; p++ {
-				wg.Add(1)
+				w := &wg
+				if rq.Bg {
+					w = &bgWg
+				}
+				w.Add(1)
 				go func() {
-					defer wg.Done()
+					defer w.Done()
 					cnt := rq.Count
 					if cnt < 1 {
 						cnt = 1
 					}
 					for i := 0; i < cnt; i++ {
+						if rq.GapUs > 0 {
+							time.Sleep(time.Duration(rq.GapUs) * time.Microsecond)
+						}
 						// The exported service methods are invoked the way godbus invokes them: on a
 						// goroutine of their own, concurrently with the frame loop.
 						svc := &service{}
-						ev := map[string]interface{}{"ev": "e2e-dbus", "conn": ci, "member": rq.Member}
+						// observation for the freshness clause: how many frames had completed on the processor
+						// that is current when the request starts, and whether it is still current afterwards
+						mu.Lock()
+						p0 := processor
+						var cnt uint32
+						if p0 != nil {
+							cnt = p0.CurrentFrame
+						}
+						mu.Unlock()
+						ev := map[string]interface{}{"ev": "e2e-dbus", "conn": ci, "member": rq.Member, "cnt": int(cnt)}
+
 						switch rq.Member {
 						case "TakeSnapshot":
 							arg := -1
@@ -474,6 +507,9 @@ func TestVerifE2E(t *testing.T) {
 								ev["reply"] = map[string]interface{}{"map": mm}
 							}
 						}
+						mu.Lock()
+						ev["same"] = processor == p0
+						mu.Unlock()
 						replyMu.Lock()
 						enc.Encode(ev)
 						replyMu.Unlock()
@@ -512,6 +548,9 @@ func TestVerifE2E(t *testing.T) {
 					paced++
 					veDrain(conn)
 					time.Sleep(time.Duration(cn.PaceMs) * time.Millisecond)
+					if paced-1 < len(cn.PaceVals) && cn.PaceVals[paced-1] > 0 {
+						atomic.StoreInt64(&doneVal, int64(cn.PaceVals[paced-1]))
+					}
 				}
 			} else if cn.PaceBytes > 0 && pos > len(hdr) {
 				for paced+cn.PaceBytes <= pos-len(hdr) {
